@@ -234,46 +234,7 @@ def run(fx, tier):
     # acknowledgements of inbound messages are never held back by the Receive Maximum quota
     from c07 import throttled_flag_owner_rule
     throttled_flag_owner_rule(fx, v, 'C04')
-    # framing state vs connection: when the read reports a reconnect (try_again) every byte buffered from the OLD
-    # connection is discarded before reading from the new one — otherwise the tail of an interrupted packet is joined
-    # with the head of the retransmitted one and a corrupted message is delivered and acknowledged
-    from flow import canon
-    n_reset = 0
-    for f in fx.functions(cls='assemble_op', name='operator()'):
-        if f.tag != 'on_read':
-            continue
-        v.saw(f)
-        dom = f.dominators()
-        for b, i, l, c in f.calls():
-            if callee_name(c) != 'perform' or callee_cls(c) != 'assemble_op':
-                continue
-            on_reconnect = False
-            for cond, pol, gb in edge_guards(f, b):
-                cm = comparison(origin(f, cond), pol)
-                if cm and cm[0] == '==' and contains([cm[1], cm[2]], lambda n: n.get('ce') == 'try_again' or n.get('n') == 'try_again'):
-                    on_reconnect = True
-            if not on_reconnect:
-                continue
-            n_reset += 1
-            emptied = False
-            for bb, ii, ll, cc in f.calls():
-                if cc.get('op') == '=' and cc.get('args') and is_member_of_this(cc['args'][0], '_data_span'):
-                    rhs = f.resolve(cc['args'][1]) if isinstance(cc['args'][1], dict) else None
-                    while isinstance(rhs, dict) and rhs.get('k') in ('ctor', 'init') and len(rhs.get('args', [])) == 1:
-                        rhs = f.resolve(rhs['args'][0])
-                    if isinstance(rhs, dict) and rhs.get('k') in ('ctor', 'init') and len(rhs.get('args', [])) == 2:
-                        a0, a1 = origin(f, rhs['args'][0]), origin(f, rhs['args'][1])
-                        same = canon(a0) == canon(a1)
-                        before = (bb == b and ii < i) or (bb != b and bb in dom.get(b, set()))
-                        # and only on the reconnect edge or later (a reset that dominates the guard would also do)
-                        if same and before:
-                            emptied = True
-            v.check(emptied, 'R-DOM', 'assemble_op::on_read:reconnect-discards-buffer@%s [%s]' % (l, f.tu),
-                    'on the try_again edge the buffered span is emptied before the next read is started: bytes of the lost '
-                    'connection are never joined with bytes of the new one', key='C04:R-DOM:assemble_op:reconnect-discards-buffer',
-                    where='%s:%s' % (f.path_file(), l))
-    if n_reset == 0 and not v.violations:
-        raise AnalysisBroken('assemble_op::on_read: no re-read on the reconnect edge found')
+    reconnect_discards_buffer_rule(fx, v, 'C04')
     # a PUBREL judged inadmissible is answered with DISCONNECT instead of PUBCOMP (shared with C20)
     from c20 import table_rows_rule
     if 'R-TABLE' not in v.rules:
@@ -372,3 +333,47 @@ def waiter_completion_rules(fx, v, prop):
         v.check(ok, 'R-OWN', '%s::%s calls clear_pending_pubrels [%s]' % (caller.cls, caller.n, caller.tu),
                 'receiver-side PUBREL waiters are dropped only by update_session_state()', key='%s:R-OWN:clear_pending_pubrels<-%s::%s' % (prop, caller.cls, caller.n),
                 where='%s:%s' % (caller.path_file(), line))
+
+
+def reconnect_discards_buffer_rule(fx, v, prop='C04'):
+    """shared with C18 and C19 (a well-formed packet after a reconnect must be framed from the new connection's bytes only)"""
+    # framing state vs connection: when the read reports a reconnect (try_again) every byte buffered from the OLD
+    # connection is discarded before reading from the new one — otherwise the tail of an interrupted packet is joined
+    # with the head of the retransmitted one and a corrupted message is delivered and acknowledged
+    from flow import canon
+    n_reset = 0
+    for f in fx.functions(cls='assemble_op', name='operator()'):
+        if f.tag != 'on_read':
+            continue
+        v.saw(f)
+        dom = f.dominators()
+        for b, i, l, c in f.calls():
+            if callee_name(c) != 'perform' or callee_cls(c) != 'assemble_op':
+                continue
+            on_reconnect = False
+            for cond, pol, gb in edge_guards(f, b):
+                cm = comparison(origin(f, cond), pol)
+                if cm and cm[0] == '==' and contains([cm[1], cm[2]], lambda n: n.get('ce') == 'try_again' or n.get('n') == 'try_again'):
+                    on_reconnect = True
+            if not on_reconnect:
+                continue
+            n_reset += 1
+            emptied = False
+            for bb, ii, ll, cc in f.calls():
+                if cc.get('op') == '=' and cc.get('args') and is_member_of_this(cc['args'][0], '_data_span'):
+                    rhs = f.resolve(cc['args'][1]) if isinstance(cc['args'][1], dict) else None
+                    while isinstance(rhs, dict) and rhs.get('k') in ('ctor', 'init') and len(rhs.get('args', [])) == 1:
+                        rhs = f.resolve(rhs['args'][0])
+                    if isinstance(rhs, dict) and rhs.get('k') in ('ctor', 'init') and len(rhs.get('args', [])) == 2:
+                        a0, a1 = origin(f, rhs['args'][0]), origin(f, rhs['args'][1])
+                        same = canon(a0) == canon(a1)
+                        before = (bb == b and ii < i) or (bb != b and bb in dom.get(b, set()))
+                        # and only on the reconnect edge or later (a reset that dominates the guard would also do)
+                        if same and before:
+                            emptied = True
+            v.check(emptied, 'R-DOM', 'assemble_op::on_read:reconnect-discards-buffer@%s [%s]' % (l, f.tu),
+                    'on the try_again edge the buffered span is emptied before the next read is started: bytes of the lost '
+                    'connection are never joined with bytes of the new one', key=prop + ':R-DOM:assemble_op:reconnect-discards-buffer',
+                    where='%s:%s' % (f.path_file(), l))
+    if n_reset == 0 and not v.violations:
+        raise AnalysisBroken('assemble_op::on_read: no re-read on the reconnect edge found')
